@@ -1,5 +1,6 @@
 import QuillModel.Extracted.Named
 import QuillModel.Props.C19
+import QuillModel.Props.C19Json
 /-!
 Side-conditions of the C19 theorems, re-proved for the values extracted from the current headers
 (`tools/extractors/named.py`): the separator is non-empty and unbordered; the JSON header literal has the fixed
@@ -107,5 +108,21 @@ theorem C19_json_parses_extracted (h : Hdr) (tmpl : Str) (pairs : Option (List (
   refine ⟨body, hb, ?_⟩
   rw [hparse, named_json_layout]
   rfl
+
+/-- `JsonSink::write_log` empties `_json_message` BEFORE the (virtual, possibly throwing) `generate_json_message` call,
+    and then does generate; append `}\n`; base `write_log` with the buffer, in this order, unconditionally -/
+theorem named_json_clear_before_generate :
+    Extracted.jsonSinkParams.clearBefore = true ∧ Extracted.jsonWriteOrderOK = true := by decide
+
+/-- C19/C10 "a throwing JSON sink leaves nothing behind" for the code as extracted: for every sequence of statements and
+    every fault schedule the file is the lines of the statements that did not fault, each with the fixed seven members
+    and its own pairs (`C19_json_extracted`), and every fault is reported once -/
+theorem C19_json_faults_extracted (stmts : List JStmt) :
+    (runJson Extracted.jsonLayout Extracted.jsonSinkParams {} stmts).file =
+      (stmts.filter (fun st => decide (st.fault = .none))).flatMap
+        (fun st => jsonLine Extracted.jsonLayout st.h st.tmpl st.pairs) ∧
+    (runJson Extracted.jsonLayout Extracted.jsonSinkParams {} stmts).reports =
+      (stmts.filter (fun st => decide (st.fault ≠ .none))).length :=
+  C19_json_faults_leave_nothing _ _ named_json_clear_before_generate.1 stmts
 
 end Obligations
